@@ -34,6 +34,7 @@ type t7 struct {
 	field  map[string]bool  // names bound to field values (value level: naturals < P once range-checked)
 	errT   string           // Lean error type of the function
 	sigLit map[string][]string // sig := &Signature{r, s, code}
+	recv   string              // builders: name of the receiver
 	sb     strings.Builder
 	indent string
 	fn     string
@@ -721,5 +722,368 @@ func passBytes(pkgs []*Pkg) (string, []string) {
 		fmt.Fprintf(&sb, "/-- %s -/\ndef %s (%s : Bytes) : Outcome %s (%s) := do\n%s\n", e.fn, e.lean, arg, e.errT, e.retT, t.sb.String())
 	}
 	sb.WriteString("end Secp.Gen.BytesProg\n")
+	return sb.String(), errs
+}
+
+// ---- builders: functions that assemble a byte string from decoded values (Serialize*, pass T7) ----
+//
+//   sigS := new(ModNScalar).Set(&sig.s)                 let sigS := s
+//   if sigS.IsOverHalfOrder() { sigS.Negate() }         let sigS := if decide (sigS > halfN) then (N - sigS) % N else sigS
+//   var b [33]byte                                      let b : Bytes := List.replicate 33 0
+//   b[i] = e                                            let b := b.set i e
+//   v.PutBytesUnchecked(b[lo:hi])                       let b := putBytes b lo hi (be32 v)
+//   c := b[:]  /  c, d := a[:], b[:]                    let c := b
+//   for len(c) > 1 && c[0] == 0 && c[1]&0x80 == 0 { c = c[1:] }      let c := canonLoop c
+//   b := make([]byte, 0, n)                             let b : Bytes := []
+//   b = append(b, e) / append(b, xs...)                 let b := b ++ [e] / b ++ xs
+//   v := C ; if cond { v = D }                          let v := if cond then D else v
+//   return b / b[:]                                     b
+// Receiver fields sig.r, sig.s, p.x, p.y are the parameters r, s, x, y (decoded values).
+
+func (t *t7) recvField(e ast.Expr) (string, bool) {
+	// &sig.s / sig.r / p.x
+	if u, ok := e.(*ast.UnaryExpr); ok && u.Op == token.AND {
+		e = u.X
+	}
+	sel, ok := e.(*ast.SelectorExpr)
+	if !ok {
+		return "", false
+	}
+	if id, ok := sel.X.(*ast.Ident); !ok || id.Name != t.recv {
+		return "", false
+	}
+	switch sel.Sel.Name {
+	case "r", "s", "x", "y":
+		return sel.Sel.Name, true
+	}
+	return "", false
+}
+
+func (t *t7) valueName(e ast.Expr) (string, bool) {
+	if n, ok := t.recvField(e); ok {
+		return n, true
+	}
+	if id, ok := e.(*ast.Ident); ok && (t.scalar[id.Name] || t.field[id.Name]) {
+		return id.Name, true
+	}
+	return "", false
+}
+
+// bexpr: byte / int expressions of builders
+func (t *t7) bexpr(e ast.Expr) string {
+	if c, ok := t.constVal(e); ok {
+		return c
+	}
+	switch x := e.(type) {
+	case *ast.ParenExpr:
+		return "(" + t.bexpr(x.X) + ")"
+	case *ast.Ident:
+		return x.Name
+	case *ast.CallExpr:
+		if id, ok := x.Fun.(*ast.Ident); ok {
+			switch id.Name {
+			case "len":
+				return t.bexpr(x.Args[0]) + ".length"
+			case "byte":
+				if isIntT(t.p.info.Types[x.Args[0]].Type) {
+					return "(UInt8.ofNat " + t.bexpr(x.Args[0]) + ")"
+				}
+				return t.bexpr(x.Args[0])
+			}
+		}
+		if sel, ok := x.Fun.(*ast.SelectorExpr); ok && len(x.Args) == 0 {
+			if v, ok := t.valueName(sel.X); ok {
+				switch sel.Sel.Name {
+				case "IsOdd":
+					return "(" + v + " % 2 == 1)"
+				case "IsOverHalfOrder":
+					return "decide (" + v + " > halfN)"
+				}
+			}
+		}
+	case *ast.BinaryExpr:
+		switch x.Op {
+		case token.ADD:
+			return "(" + t.bexpr(x.X) + " + " + t.bexpr(x.Y) + ")"
+		case token.SUB:
+			c, ok := t.constVal(x.Y)
+			var k int64
+			if ok {
+				fmt.Sscan(c, &k)
+			}
+			if !ok || t.lowerBound(x.X) < k {
+				t.fail(x, "subtraction that is not known to stay non-negative")
+			}
+			return "(" + t.bexpr(x.X) + " - " + t.bexpr(x.Y) + ")"
+		}
+	}
+	t.fail(e, "expression %T outside the T7 builder subset", e)
+	return "0"
+}
+
+// canonIdiom: for len(c) > 1 && c[0] == 0x00 && c[1]&0x80 == 0 { c = c[1:] }
+func (t *t7) canonIdiom(f *ast.ForStmt) (string, bool) {
+	if f.Init != nil || f.Post != nil || f.Cond == nil || len(f.Body.List) != 1 {
+		return "", false
+	}
+	src := t.p.fset.Position(f.Cond.Pos())
+	_ = src
+	var buf strings.Builder
+	ast.Inspect(f.Cond, func(n ast.Node) bool { return true })
+	// compare the printed condition with the expected shape, modulo the variable name
+	as, ok := f.Body.List[0].(*ast.AssignStmt)
+	if !ok || len(as.Lhs) != 1 || len(as.Rhs) != 1 || as.Tok != token.ASSIGN {
+		return "", false
+	}
+	v, ok := as.Lhs[0].(*ast.Ident)
+	if !ok {
+		return "", false
+	}
+	sl, ok := as.Rhs[0].(*ast.SliceExpr)
+	if !ok || sl.High != nil || sl.Low == nil {
+		return "", false
+	}
+	if b, ok := sl.X.(*ast.Ident); !ok || b.Name != v.Name {
+		return "", false
+	}
+	if c, ok := t.constVal(sl.Low); !ok || c != "1" {
+		return "", false
+	}
+	want := fmt.Sprintf("len(%s) > 1 && %s[0] == 0 && %s[1]&128 == 0", v.Name, v.Name, v.Name)
+	got := t.printCond(f.Cond)
+	buf.WriteString(got)
+	if got != want {
+		return "", false
+	}
+	return v.Name, true
+}
+
+// printCond: a canonical rendering of a small condition with constants folded
+func (t *t7) printCond(e ast.Expr) string {
+	if c, ok := t.constVal(e); ok {
+		return c
+	}
+	switch x := e.(type) {
+	case *ast.ParenExpr:
+		return t.printCond(x.X)
+	case *ast.Ident:
+		return x.Name
+	case *ast.BinaryExpr:
+		op := x.Op.String()
+		sp := " "
+		if x.Op == token.AND {
+			sp = ""
+		}
+		return t.printCond(x.X) + sp + op + sp + t.printCond(x.Y)
+	case *ast.IndexExpr:
+		return t.printCond(x.X) + "[" + t.printCond(x.Index) + "]"
+	case *ast.CallExpr:
+		if id, ok := x.Fun.(*ast.Ident); ok && len(x.Args) == 1 {
+			return id.Name + "(" + t.printCond(x.Args[0]) + ")"
+		}
+	}
+	return "?"
+}
+
+func (t *t7) builder(list []ast.Stmt) {
+	for _, s := range list {
+		if t.err != nil {
+			return
+		}
+		switch st := s.(type) {
+		case *ast.DeclStmt:
+			gd := st.Decl.(*ast.GenDecl)
+			if gd.Tok != token.VAR {
+				t.fail(st, "declaration")
+				return
+			}
+			for _, sp := range gd.Specs {
+				vs := sp.(*ast.ValueSpec)
+				for _, nm := range vs.Names {
+					obj := t.p.info.Defs[nm]
+					arr, ok := obj.Type().Underlying().(*types.Array)
+					if !ok || !isByteT(arr.Elem()) || len(vs.Values) != 0 {
+						t.fail(st, "variable %s", nm.Name)
+						return
+					}
+					t.line("let %s : Bytes := List.replicate %d 0", nm.Name, arr.Len())
+				}
+			}
+		case *ast.AssignStmt:
+			if len(st.Lhs) == 2 && len(st.Rhs) == 2 && st.Tok == token.DEFINE {
+				for i := range st.Lhs {
+					sl, ok := st.Rhs[i].(*ast.SliceExpr)
+					if !ok || sl.Low != nil || sl.High != nil {
+						t.fail(st, "parallel definition")
+						return
+					}
+					t.line("let %s := %s", st.Lhs[i].(*ast.Ident).Name, sl.X.(*ast.Ident).Name)
+				}
+				continue
+			}
+			if len(st.Lhs) != 1 || len(st.Rhs) != 1 {
+				t.fail(st, "assignment form")
+				return
+			}
+			// b[i] = e
+			if ix, ok := st.Lhs[0].(*ast.IndexExpr); ok && st.Tok == token.ASSIGN {
+				b := ix.X.(*ast.Ident).Name
+				t.line("let %s := %s.set %s %s", b, b, t.bexpr(ix.Index), t.bexpr(st.Rhs[0]))
+				continue
+			}
+			id, ok := st.Lhs[0].(*ast.Ident)
+			if !ok {
+				t.fail(st, "assignment target")
+				return
+			}
+			switch r := st.Rhs[0].(type) {
+			case *ast.CallExpr:
+				// sigS := new(ModNScalar).Set(&sig.s)
+				if sel, ok := r.Fun.(*ast.SelectorExpr); ok && sel.Sel.Name == "Set" && len(r.Args) == 1 {
+					if v, ok := t.valueName(r.Args[0]); ok {
+						t.scalar[id.Name] = true
+						t.line("let %s := %s", id.Name, v)
+						continue
+					}
+				}
+				if fid, ok := r.Fun.(*ast.Ident); ok {
+					switch fid.Name {
+					case "make": // make([]byte, 0, n)
+						if len(r.Args) == 3 {
+							if c, ok := t.constVal(r.Args[1]); ok && c == "0" {
+								t.line("let %s : Bytes := []", id.Name)
+								continue
+							}
+						}
+					case "append":
+						if len(r.Args) == 2 {
+							if b, ok := r.Args[0].(*ast.Ident); ok && b.Name == id.Name {
+								if r.Ellipsis != token.NoPos {
+									t.line("let %s := %s ++ %s", id.Name, id.Name, t.bexpr(r.Args[1]))
+								} else {
+									t.line("let %s := %s ++ [%s]", id.Name, id.Name, t.bexpr(r.Args[1]))
+								}
+								continue
+							}
+						}
+					}
+				}
+			case *ast.SliceExpr:
+				if r.Low == nil && r.High == nil {
+					t.line("let %s := %s", id.Name, r.X.(*ast.Ident).Name)
+					continue
+				}
+			}
+			v := t.bexpr(st.Rhs[0])
+			if isIntT(t.p.info.Types[st.Rhs[0]].Type) {
+				t.lower[id.Name] = t.lowerBound(st.Rhs[0])
+			}
+			t.line("let %s := %s", id.Name, v)
+		case *ast.IfStmt:
+			if st.Init != nil || st.Else != nil || len(st.Body.List) != 1 {
+				t.fail(st, "if form")
+				return
+			}
+			c := t.bexpr(st.Cond)
+			switch b := st.Body.List[0].(type) {
+			case *ast.ExprStmt: // sigS.Negate()
+				call, ok := b.X.(*ast.CallExpr)
+				if ok {
+					if sel, ok := call.Fun.(*ast.SelectorExpr); ok && sel.Sel.Name == "Negate" && len(call.Args) == 0 {
+						if id, ok := sel.X.(*ast.Ident); ok && t.scalar[id.Name] {
+							t.line("let %s := if %s then (N - %s) %% N else %s", id.Name, c, id.Name, id.Name)
+							continue
+						}
+					}
+				}
+			case *ast.AssignStmt: // v = D
+				if len(b.Lhs) == 1 && len(b.Rhs) == 1 && b.Tok == token.ASSIGN {
+					if id, ok := b.Lhs[0].(*ast.Ident); ok {
+						t.line("let %s := if %s then %s else %s", id.Name, c, t.bexpr(b.Rhs[0]), id.Name)
+						continue
+					}
+				}
+			}
+			t.fail(st, "if body outside the T7 builder subset")
+		case *ast.ForStmt:
+			if name, ok := t.canonIdiom(st); ok {
+				t.line("let %s := canonLoop %s", name, name)
+				continue
+			}
+			t.fail(st, "loop outside the T7 builder subset")
+		case *ast.ExprStmt:
+			// v.PutBytesUnchecked(b[lo:hi])
+			call, ok := st.X.(*ast.CallExpr)
+			if ok {
+				if sel, ok := call.Fun.(*ast.SelectorExpr); ok && sel.Sel.Name == "PutBytesUnchecked" && len(call.Args) == 1 {
+					if v, ok := t.valueName(sel.X); ok {
+						if sl, ok := call.Args[0].(*ast.SliceExpr); ok && sl.Low != nil && sl.High != nil {
+							b := sl.X.(*ast.Ident).Name
+							t.line("let %s := putBytes %s %s %s (be32 %s)", b, b, t.bexpr(sl.Low), t.bexpr(sl.High), v)
+							continue
+						}
+					}
+				}
+			}
+			t.fail(st, "expression statement outside the T7 builder subset")
+		case *ast.ReturnStmt:
+			if len(st.Results) == 1 {
+				switch r := st.Results[0].(type) {
+				case *ast.Ident:
+					t.line("%s", r.Name)
+					return
+				case *ast.SliceExpr:
+					if r.Low == nil && r.High == nil {
+						t.line("%s", r.X.(*ast.Ident).Name)
+						return
+					}
+				}
+			}
+			t.fail(st, "return form")
+			return
+		default:
+			t.fail(s, "statement %T outside the T7 builder subset", s)
+		}
+	}
+}
+
+type builderEntry struct {
+	pkg            int
+	fn, lean, args string
+}
+
+func passBuilders(pkgs []*Pkg) (string, []string) {
+	var errs []string
+	var sb strings.Builder
+	sb.WriteString("import Secp.Model.Der\nimport Secp.Model.PubKey\nimport Secp.Model.Schnorr\n/- GENERATED by tools/gotr (pass T7, builders) from /repo — do not edit.\n   Serialisers translated statement by statement (see tools/gotr/bytes.go). -/\nnamespace Secp.Gen.BytesBuild\nopen Secp.Spec Secp.Model\n\n/-- `v.PutBytesUnchecked(b[lo:hi])`: the window [lo, hi) of b is overwritten by src (hi - lo = src.length) -/\ndef putBytes (b : Bytes) (lo hi : Nat) (src : Bytes) : Bytes := b.take lo ++ src.take (hi - lo) ++ b.drop hi\n\n")
+	for _, e := range []builderEntry{
+		{0, "Signature.Serialize", "serializeDER", "(r s : Nat)"},
+		{0, "PublicKey.SerializeCompressed", "serializeCompressed", "(x y : Nat)"},
+		{0, "PublicKey.SerializeUncompressed", "serializeUncompressed", "(x y : Nat)"},
+		{1, "Signature.Serialize", "schnorrSerialize", "(r s : Nat)"},
+	} {
+		if e.pkg >= len(pkgs) {
+			errs = append(errs, "builders: package of "+e.fn+" not loaded")
+			continue
+		}
+		p := pkgs[e.pkg]
+		fd := p.funcs[e.fn]
+		if fd == nil {
+			errs = append(errs, "builders: "+e.fn+" not found")
+			continue
+		}
+		t := &t7{p: p, lower: map[string]int64{}, scalar: map[string]bool{}, field: map[string]bool{}, indent: "  ", fn: e.fn}
+		if fd.Recv == nil || len(fd.Recv.List[0].Names) != 1 || len(fd.Type.Params.List) != 0 {
+			errs = append(errs, "builders: "+e.fn+" signature changed")
+			continue
+		}
+		t.recv = fd.Recv.List[0].Names[0].Name
+		t.builder(fd.Body.List)
+		if t.err != nil {
+			errs = append(errs, t.err.Error())
+		}
+		fmt.Fprintf(&sb, "/-- %s (package %s) -/\ndef %s %s : Bytes :=\n%s\n", e.fn, p.pkg.Name(), e.lean, e.args, t.sb.String())
+	}
+	sb.WriteString("end Secp.Gen.BytesBuild\n")
 	return sb.String(), errs
 }
